@@ -30,7 +30,7 @@ int main(int argc,char**argv){
   for(char *s=strtok(argv[1],"/"); s && nprog<MAXTH; s=strtok(0,"/")) prog[nprog++]=s;
   for(int i=0;i<10;i++) cds_lfq_node_init_rcu(&U[i]);
   cds_lfq_init_rcu(&q,qcr);
-  vs_region(&q,sizeof q,"q"); vs_region(U,sizeof U,"U"); vs_region(DP,sizeof DP,"D");
+  vs_region(&q,sizeof q,"q"); vs_region(U,sizeof U,"U"); vs_region(DP,sizeof DP,"D"); vs_plain_track(U,sizeof U); vs_plain_track(DP,sizeof DP);
   vs_strict=0;
   for(int i=0;i<nprog;i++) vs_spawn(body);
   vs_run(argv[2]);
